@@ -17,7 +17,9 @@ open Verif.Proto Verif.Model.Lang3.Events
 def declaredShapes (p : Program) : List (String × List String × List Ty) :=
   p.events.map (fun d => (d.id, d.params.map (·.name), d.params.map (·.ty))) ++
   (p.resources.zipIdx.filterMap fun (d, i) =>
-    d.destroyEvent.map fun ps => (resEventId i, ps.map (·.name), ps.map (·.ty)))
+    d.destroyEvent.map fun ps => (resEventId i, ps.map (·.name), ps.map (·.ty))) ++
+  (p.ifaces.zipIdx.filterMap fun (d, i) =>
+    d.destroyEvent.map fun ps => (ifaceEventId i, ps.map (·.name), ps.map (·.ty)))
 
 /-- `Ty(n1=v1,n2=v2)` → (`Ty`, [n1, n2]); values may contain `,` `=` inside brackets/quotes: split at depth 0 -/
 def payloadShape (s : String) : String × List String :=
